@@ -169,6 +169,9 @@ def check(run) -> None:
     res = run.tlc("Turn", cfg, name="Turn_yield", workers=8, timeout_s=900)
     run.model_must_hold(res)
     cases = [{"inp": b["h"][0]["inp"], "log": b["h"][0]["log"], "workdir": run.workdir} for b in res.emitted]
+    # the same yielding vectors with the time passing early in the stage (right after the previous boundary check)
+    cases += [{"inp": dict(c["inp"], yield_jump="after_prev"), "log": c["log"], "workdir": run.workdir} for c in list(cases)
+              if c["inp"].get("yield_at") in ("T2", "T3", "T4", "Apply")]
     for c, fails in zip(cases, pmap(yield_case, cases, chunk=2)):
         run.traces += 1
         run.case(("turn_yield", json.dumps(c["inp"], sort_keys=True)))
@@ -184,7 +187,10 @@ def check(run) -> None:
     import itertools
     for pops, iters, k, ops in itertools.product(vals["t1_pops"], vals["t1_iters"], vals["t2_k"], vals["t3_ops"]):
         b = {kk: vv for kk, vv in (("t1_pops", pops), ("t1_iters", iters), ("t2_k", k), ("t3_ops", ops)) if vv is not None}
-        for text in (["I like apple and banana"] if q else ["I like apple and banana", "cherry pie"]):
+        # ("apple" alone seeds one node of a three-node chain: two layers without a budget, so a layer budget of 1 binds)
+        for text in (["I like apple and banana", "apple"] if q else ["I like apple and banana", "cherry pie", "apple"]):
+            if text == "apple" and iters is None:
+                continue
             bcases.append({"budgets": b, "quantum": 20, "wall": 200, "text": text, "workdir": run.workdir})
             if pops is not None or iters is not None or k is not None:
                 bcases.append({"budgets": b, "quantum": 20, "wall": 200, "text": text, "workdir": run.workdir, "warm": True})
